@@ -113,6 +113,16 @@ CLAIMED = {
         "note": "Trusted: z3 (nlsat for the rational unit identities), symx, recorded (not evaluated) scipy.ndimage calls, exp/ceil as uninterpreted/ToInt terms. Bounds: 1x1x2 images for operators, |r/scale| <= 3 for morphology structures, from_gaussian boxes up to 3 voxels per axis. Not covered: from_file/from_files/from_atoms/from_pdb (I/O), lowpass/highpass (C16), threshold_otsu/soft_otsu histograms, resize/zoom interpolation values.",
         "ref": "DESIGN.md §4 C19",
     },
+    "C20": {
+        "text": "pick_molecules / _pick_in_chunk_wrapped / get_params_and_depth / MoleculesBox / Molecules.concat executed on the REAL dask (synchronous scheduler) over an image of position codes cut into concrete chunks (1-6 per axis, incl. chunks thinner than the "
+                "overlap depth and axes shorter than it), so each block tells which global voxels it holds; particle coordinates, the scale and the detector's behaviour near block borders are symbolic. Per path z3 decides: exactly one molecule per planted "
+                "particle, at coordinate*scale (1 particle anywhere, 2 well separated). Template matcher: one rotated template per searched rotation, rotated about the box centre by the inverse rotation (exact rational quaternions); overlap depth covers every "
+                "owned centre given the landscape geometry of C04; centre = landscape position + (s+1)/2; returned quaternion = searched rotation of the arg-max template; chunked picking with the matcher's per-axis depth. LoG/DoG: sigma_px = sigma/scale, depth - 1/2 >= exclusion radius.",
+        "note": "Trusted: real dask.array (map_overlap, from_array), real polars, z3, symx. The scipy part of pick_in_chunk is replaced by an idealised detector (stated in the evidence): must report a particle whose r-neighbourhood lies in the block, may report nearer ones, "
+                "may report one spurious border maximum. Bounds: images <= 16 voxels per axis, scale in [0.6, 1.5], sigma 1 nm, templates up to (4,2,6)/(3,5,3), K <= 5. Not covered: whether LoG/DoG/ZNCC maxima coincide with particle centres on real content, "
+                "min-distance suppression, dtype handling, exact ties (a blob centred exactly between two voxels).",
+        "ref": "DESIGN.md §4 C20",
+    },
 }
 
 NOT_APPLICABLE = {
